@@ -103,6 +103,26 @@ Theorem C09_disk_usage_spec : forall st, disk_usage st = spec_usage st.
 Proof. exact disk_usage_spec. Qed.
 Print Assumptions C09_disk_usage_spec.
 
+(* the same, written out for every statvfs tuple with f_bsize and f_frsize as independent fields:
+   block counts are in units of f_frsize; f_bsize (any value: equal, larger, smaller, 0) never
+   enters total / used / free / percent *)
+Theorem C09_disk_usage_unit : forall bsize frsize blocks bfree bavail,
+  disk_usage {| f_bsize := bsize; f_frsize := frsize; f_blocks := blocks; f_bfree := bfree; f_bavail := bavail |}
+  = {| u_total := blocks * frsize;
+       u_used := blocks * frsize - bfree * frsize;
+       u_free := bavail * frsize;
+       u_percent := if (blocks * frsize - bfree * frsize) + bavail * frsize =? 0 then None
+                    else Some ((blocks * frsize - bfree * frsize) * 100,
+                               (blocks * frsize - bfree * frsize) + bavail * frsize) |}.
+Proof. exact disk_usage_unit. Qed.
+Print Assumptions C09_disk_usage_unit.
+
+Theorem C09_disk_usage_bsize_irrelevant : forall st bsize,
+  disk_usage {| f_bsize := bsize; f_frsize := f_frsize st; f_blocks := f_blocks st;
+                f_bfree := f_bfree st; f_bavail := f_bavail st |} = disk_usage st.
+Proof. exact disk_usage_bsize_irrelevant. Qed.
+Print Assumptions C09_disk_usage_bsize_irrelevant.
+
 (* kernel-shaped tuples (0 <= bavail <= bfree <= blocks, 0 <= frsize): nothing negative,
    used + free <= total, 0 <= percent <= 100 *)
 Theorem C09_disk_usage_bounds : forall st,
